@@ -224,6 +224,12 @@ func runLock(cfg *config) {
 			return
 		}
 	}
+	// switching to another database and back under a different spelling of the name: only one store of
+	// this database may be alive, or the other one's timer writes into the file during the statements below
+	if err := storage.CreateDB("lkother"); err == nil || err == storage.ErrDBExists {
+		must("USE lkother")
+		must("USE LK")
+	}
 	// the console's signal handler closes the session while a statement runs: the statement either is
 	// acknowledged and durable, or returns an error and leaves nothing behind
 	{
